@@ -14,7 +14,7 @@ from .values import Unsupported, AttachError
 
 VERIF = native.VERIF
 CONTRACT_MODULES = ["common", "c13", "c14", "c03", "c09", "c16", "c17", "c20", "c04", "c05", "c15", "c11", "c10",
-                    "c01", "c02", "c08", "c07", "c06", "c19", "c18", "cpipe"]
+                    "c01", "c02", "c08", "c07", "c06", "c19", "c18", "cpipe", "cwrap"]
 
 ASSUMPTIONS_COMMON = [
     "Python int = SMT Int; C int/ssize_t = SMT Int plus a no-overflow obligation under the stated size preconditions",
@@ -133,6 +133,14 @@ def run_property(pid, tier="quick", seed=0, relock=False, only=None, verbose=Tru
     # ---- 2. discharge
     t_full = 60000 if tier == "thorough" else 30000
     smt.discharge(res.cxs, t_qf=8000, t_full=t_full)
+    # an obligation kind that is locked (discharged on the unchanged tree) and comes back `unknown` gets a second chance
+    # with other seeds and a longer budget before it is reported: slow queries are the unstable ones
+    second = [(cx.axioms, o) for cx in res.cxs for o in cx.obls
+              if o.kind != "canary" and o.status == "unknown" and o.kind_id in lock.get("kinds", {})
+              and match_known(known, pid, o.kind_id) is None]
+    if second and not relock:
+        log(f"[{pid}] {len(second)} locked obligation(s) undecided after the first pass: retrying with other seeds")
+        smt.retry(second)
     all_obls = [(cx, o) for cx in res.cxs for o in cx.obls]
     canaries = [(cx, o) for cx, o in all_obls if o.kind == "canary"]
     real = [(cx, o) for cx, o in all_obls if o.kind != "canary"]
